@@ -2,7 +2,9 @@
 (***************************************************************************)
 (* C16 - encrypted parts are tamper-evident and seekable.                  *)
 (*                                                                         *)
-(* Byte(cell)-level model, with scaled-down constants, of                  *)
+(* Byte(cell)-level model, with scaled-down constants (segment 14, tink     *)
+(* header 5, tag 2: the order relations between header, tag and segment     *)
+(* sizes that the arithmetic depends on are those of the real constants), of *)
 (*   tink.go      PutPart (layout of the stored object), readPartHeaderAndDEK, *)
 (*                GetPart (seekable vs sequential path)                    *)
 (*   seekable.go  newSeekableDecryptingReader, segmentForPlaintextOffset,  *)
@@ -10,7 +12,7 @@
 (*   tink-go v1.7 streamingaead/subtle NewDecryptingReader and             *)
 (*                noncebased.Reader.Read (the sequential path)             *)
 (* A stored object is a sequence of CELLS written by the writer:           *)
-(*   len len | jsyn jver jkt jseg jdek | thl tsalt tnp | seg_0 | seg_1 ... *)
+(*   len len | jsyn jver jkt jseg jdek | thl salt salt np np | seg_0 | ... *)
 (*   (length prefix, header JSON, tink header, segments = body cells + tag)*)
 (* Symbolic AEAD: Open(slice, index, last) succeeds iff the slice is       *)
 (* exactly the complete, unmodified ciphertext of the writer's segment     *)
@@ -24,8 +26,8 @@ EXTENDS Integers, Sequences, FiniteSets, TLC
 CONSTANTS Deviations,   \* open deviation tags (model of the code); {} = intended design
           MaxFull       \* MC: plaintext lengths 0 .. MaxFull*Pss+2
 
-Css  == 8               \* ciphertext segment size      (real: 131072)
-Hdr  == 3               \* tink header cells            (real: 40 bytes)
+Css  == 14              \* ciphertext segment size      (real: 131072)
+Hdr  == 5               \* tink header cells            (real: 40 bytes; same ratio to the tag as in reality)
 Tag  == 2               \* tag cells per segment        (real: 16 bytes)
 Pss  == Css - Tag       \* plaintext per full segment
 Pss0 == Pss - Hdr       \* plaintext of the first segment
@@ -36,7 +38,6 @@ CssGrown == 2 * Css     \* a different, still legal segment size written into th
 All == 1000             \* "read until EOF"
 
 EofTag   == "D-C16-eof-without-authentication"
-HdrTag   == "D-C16-header-not-authenticated"
 TruncTag == "D-C16-truncated-header-reads-empty"
 StaleTag == "D-C16-stale-buffer-after-failed-segment"
 SeqTag   == "D-C16-sequential-truncation-undetected"
@@ -54,7 +55,7 @@ WStart(j)  == IF j = 0 THEN 0 ELSE Pss0 + (j - 1) * Pss
 WLen(L, j) == IF j < NumSeg(L) - 1 THEN (IF j = 0 THEN Pss0 ELSE Pss) ELSE L - WStart(j)
 HeaderCells(w) == <<H("len", w, 0, 0), H("len", w, 1, 0), H("jsyn", w, 0, 0), H("jver", w, 0, 0), H("jkt", w, 0, 0),
                     H("jseg", w, 0, Css), H("jdek", w, 0, 0)>>
-TinkCells(w) == <<H("thl", w, 0, 0), H("tsalt", w, 0, 0), H("tnp", w, 0, 0)>>
+TinkCells(w) == <<H("thl", w, 0, 0), H("tsalt", w, 0, 0), H("tsalt", w, 1, 0), H("tnp", w, 0, 0), H("tnp", w, 1, 0)>>   \* Hdr cells
 SegCells(w, L, j) ==
   LET pt == WLen(L, j)
       last == j = NumSeg(L) - 1 IN
@@ -72,7 +73,7 @@ WSegOff(L, j) == IF j = 0 THEN Base + Hdr ELSE WSegOff(L, j - 1) + WLen(L, j - 1
 Junk == [c |-> "junk", w |-> "-", j |-> -1, k |-> -1, n |-> 0, last |-> FALSE, p |-> -1, v |-> 0, x |-> FALSE]
 T(kind, unit, j, j2, where) == [kind |-> kind, unit |-> unit, j |-> j, j2 |-> j2, where |-> where]
 NoTamper == T("none", "-", -1, -1, "-")
-HeaderUnits == <<"len0", "len1", "jsyn", "jver", "jkt", "jseg", "jdek", "thl", "tsalt", "tnp">>
+HeaderUnits == <<"len0", "len1", "jsyn", "jver", "jkt", "jseg", "jdek", "thl", "tsalt", "tsalt2", "tnp", "tnp2">>
 UnitPos(u) == CHOOSE i \in 1..Len(HeaderUnits) : HeaderUnits[i] = u
 CellPos(L, t) ==       \* 1-based position of the cell a "flip" descriptor designates
   IF t.unit \in {"body", "tag"}
@@ -93,7 +94,7 @@ TruncLen(L, t) ==      \* number of cells kept by a "trunc" descriptor
     [] t.unit = "aftertink" -> Base + Hdr
     [] t.unit = "segstart"  -> WSegOff(L, t.j)                       \* exact segment boundary (before segment j)
     [] t.unit = "segstart1" -> WSegOff(L, t.j) + 1                   \* one byte of segment j survives
-    [] t.unit = "segmid"    -> WSegOff(L, t.j) + (WLen(L, t.j) + Tag) \div 2
+    [] t.unit = "segmid"    -> WSegOff(L, t.j) + Tag + 1                 \* mid-segment: tag+1 bytes of segment j survive
     [] t.unit = "lasttag"   -> Len(Stored("A", L)) - 1
 ExtendBy(t) == CASE t.unit = "one" -> 1 [] t.unit = "tag" -> Tag [] t.unit = "css" -> Css
 SegOf(S, L, j) == SubSeq(S, WSegOff(L, j) + 1, WSegOff(L, j) + WLen(L, j) + Tag)
@@ -107,7 +108,7 @@ Applicable(L, t) ==
     [] t.kind = "flipat"  -> t.j \in 1..Len(Stored("A", L))
     [] t.kind = "truncat" -> t.j \in 0..(Len(Stored("A", L)) - 1)
     [] t.kind = "trunc" -> IF t.unit \in {"segstart", "segstart1"} THEN t.j \in 1..(NumSeg(L) - 1)
-                           ELSE IF t.unit = "segmid" THEN t.j \in 0..(NumSeg(L) - 1)
+                           ELSE IF t.unit = "segmid" THEN t.j \in 0..(NumSeg(L) - 1) /\ WLen(L, t.j) >= 2
                            ELSE TRUE
     [] t.kind = "extend" -> TRUE
     [] t.kind = "swap" -> t.j \in 0..(NumSeg(L) - 1) /\ t.j2 \in 0..(NumSeg(L) - 1) /\ t.j < t.j2
@@ -132,6 +133,12 @@ Apply(S, L, t) ==
     [] t.kind = "segsize" -> [S EXCEPT ![UnitPos("jseg")].v = CssGrown]   \* header re-encoded consistently
 ReaderId(t) == IF t.kind = "crossid" THEN "B" ELSE "A"
 Tampered(t) == t.kind # "none"
+\* "Any modification of the stored CIPHERTEXT makes the read fail": the plaintext metadata fields of the header
+\* JSON (version, keyType, segmentSize) are not ciphertext; for them only "exact plaintext or failure" is demanded.
+SoftUnits == {"jver", "jkt", "jseg"}
+Covered(t) == /\ t.kind \notin {"none", "segsize"}
+              /\ t.kind = "flip" => t.unit \notin SoftUnits
+              /\ t.kind = "flipat" => t.j \notin {UnitPos(u) : u \in SoftUnits}
 
 --------------------------------------------------------------------------
 \* tink.go readPartHeaderAndDEK
@@ -148,12 +155,11 @@ ReadHeader(S, id) ==
            jkt  == S[LenCells + 3]
            jseg == S[LenCells + 4]
            jdek == S[LenCells + 5]
-           soft == jver.x \/ jkt.x \/ jseg.x \/ jseg.v # Css      \* fields the code does not authenticate
-       IN IF jsyn.x THEN Err                                       \* json.Unmarshal fails
+       IN \* version (1..3), keyType and segmentSize are plaintext metadata that nothing authenticates: a modified
+          \* version/keyType is ignored, a modified segmentSize is used (see Covered below)
+          IF jsyn.x THEN Err                                       \* json.Unmarshal fails
           ELSE IF jdek.x \/ jdek.w # id THEN Err                   \* masterAEAD.Decrypt(encDEK, aad = part id) fails
-          ELSE IF soft /\ ~Dev(HdrTag) THEN Err                    \* intended: the whole header is authenticated
-          ELSE [st |-> "ok", css |-> jseg.v + (IF jseg.x THEN 1 ELSE 0), owner |-> jdek.w,
-                tags |-> IF soft THEN {HdrTag} ELSE {}]
+          ELSE [st |-> "ok", css |-> jseg.v + (IF jseg.x THEN 1 ELSE 0), owner |-> jdek.w, tags |-> {}]
 
 \* symbolic AEAD (AES-GCM with nonce = prefix || index || last, key = HKDF(DEK, salt, aad))
 Open(sl, j, last, owner, keyok) ==
@@ -163,8 +169,8 @@ Open(sl, j, last, owner, keyok) ==
   /\ sl[1].n = Len(sl)
 Plain(sl) == [i \in 1..(Len(sl) - Tag) |-> [w |-> sl[i].w, p |-> sl[i].p]]
 Zero == [w |-> "Z", p |-> -1]
-KeyOk(ct, owner) == /\ ct[2].c = "tsalt" /\ ~ct[2].x /\ ct[2].w = owner
-                    /\ ct[3].c = "tnp" /\ ~ct[3].x /\ ct[3].w = owner
+KeyOk(ct, owner) == /\ \A i \in 2..3 : ct[i].c = "tsalt" /\ ~ct[i].x /\ ct[i].w = owner     \* derived key
+                    /\ \A i \in 4..5 : ct[i].c = "tnp" /\ ~ct[i].x /\ ct[i].w = owner       \* nonce prefix
 
 --------------------------------------------------------------------------
 \* seekable.go
@@ -331,8 +337,8 @@ ScriptOk(path, script) == \A i \in 1..Len(script) : (path = "seq") = (script[i].
 ReadAll(s) == s.cnt = "all" /\ (s.wh = "none" \/ (s.wh = "start" /\ s.abs = 0))
 PropC16(t, script, rs) ==
   /\ \A i \in 1..Len(rs) : ~rs[i].wrong /\ rs[i].res \notin {"short", "panic"}      \* exactly the plaintext, or failure
-  /\ ~Tampered(t) => \A i \in 1..Len(rs) : rs[i].res = "exact"                      \* seekable: the exact suffix/slice
-  /\ (Tampered(t) /\ script # <<>> /\ ReadAll(script[1])) => rs[1].res = "err"      \* reading to the end fails
+  /\ ~Tampered(t) => \A i \in 1..Len(rs) : rs[i].res \in {"exact", "skipped"}        \* seekable: the exact suffix/slice
+  /\ (Covered(t) /\ script # <<>> /\ ReadAll(script[1])) => rs[1].res = "err"       \* reading to the end fails
 
 --------------------------------------------------------------------------
 \* (a) the reader's segment arithmetic agrees with the writer's layout, for every length and offset
